@@ -28,10 +28,11 @@ MANIFEST = {
     "text": "Lean 4: executable model of OmegaConf's structured merge (typed schema generated from the live dataclasses), of the "
             "key loop of setup_common_environment, of the name arithmetic of load_model_from_name / "
             "load_model_config_from_name / setup_engine and of dict_flatten; kernel-evaluated theorems (decide +kernel) that "
-            "every shipped YAML tree (87, regenerated from the working tree each run) passes merge, operator, engine and "
+            "every shipped YAML tree (87, regenerated from the working tree each run; full strength, no file or class excluded) "
+            "passes merge, operator, engine and "
             "dataset-block checks, that every transform-schema key is a parameter of build_mri_transforms, that every "
-            "dataclass default is a value of its declared type, that no dataclass instance is a class-level default and that "
-            "every module imports; generic theorems specify the checker (validate accepts exactly the WellTyped trees, "
+            "dataclass default is a value of its declared type, that no dataclass instance is a class-level default, that "
+            "every model class binds the fields of its config class and that every module imports; generic theorems specify the checker (validate accepts exactly the WellTyped trees, "
             "rejects unknown keys). Differential correspondence runs the real setup_common_environment / setup_engine / "
             "build_transforms_from_environment on all files and on mutated files and diffs verdict and error class.",
     "note": "Partial: instantiation of torch modules, engines, masking functions and transform objects is run (meta device for "
@@ -62,20 +63,7 @@ RULE = ("one case per shipped YAML file (verdict of the whole pipeline), per mut
         "trivially (Any); distinct = distinct protocol line")
 
 # keys of findings on the current tree that the lead has not yet repaired or listed as known (still reported)
-PENDING_FINDINGS = [
-    "yaml:projects/CMRxRecon/configs/base_vsharp_2D_dynamic_recon.yaml:merge-ConfigKeyError",
-    "yaml:projects/JSSL/configs/unet_jssl.yaml:engine-SystemExit",
-    "yaml:projects/JSSL/configs/unet_ssl.yaml:engine-SystemExit",
-    "yaml:projects/calgary_campinas/configs/base_conjgradnet.yaml:model-init-ValueError",
-    "yaml:projects/toy/base.yaml:inference-block-MissingMandatoryValue",
-    "code:subsample.CalgaryCampinasMaskFunc:KeyError-float-acceleration",
-    "config:direct.nn.unet.config.NormUnetModel2dConfig:not-a-dataclass",
-    "config:direct.nn.resnet.config.ResNetConfig:default-init-TypeError",
-    "config:direct.nn.conjgradnet.config.ConjGradNetConfig:default-init-ValueError",
-    "config:direct.nn.recurrentvarnet.config.RecurrentVarNetConfig:default-init-ValueError",
-    "config:direct.nn.varsplitnet.config.MRIVarSplitNetConfig:default-init-ValueError",
-    "config:direct.nn.vsharp.config.VSharpNetConfig:default-init-ValueError",
-]
+PENDING_FINDINGS: list[str] = []
 
 STAGE = {1: "merge", 2: "operators", 3: "engine", 4: "blocks"}
 N_WORKERS = int(os.environ.get("VERIF_C20_WORKERS", "12"))
